@@ -1,6 +1,6 @@
 (* C02 — Integer operators follow C11 promotion, common-type and operator semantics.
    Objects: model/Lower.v (tied to RZILTransformer.py by K2), sem/CSem.v, sem/RzIL.v.
-   The full statement is FALSE of the faithful model (D1, D2, D13): refuted by concrete witnesses;
+   The full statement is FALSE of the faithful model (D2; D1 and D13 were repaired in /repo): refuted by a concrete witness;
    it is proved for the repaired model on the pure expression fragment and hence for the faithful
    model on every program whose translation does not depend on the repair switches. *)
 From Coq Require Import ZArith NArith List Bool String.
@@ -18,8 +18,9 @@ Definition C02_statement : Prop := faithful_on (fun _ => True).
 Definition w_D1 : cstmts :=
   SCons (SDecl [TS_intN true 16] "a" (Some (EOp (OReg "R" "s"))))
  (SCons (SExpr (EAssign AAssign (EOp (OReg "R" "d")) (EBin BShl (EOp (OIdent "a")) (EOp (ONum 20 false ""))))) SNil).
-Theorem C02_refuted_shift_promotion : mistranslated w_D1 32.
-Proof. left. vm_compute. reflexivity. Qed.
+(* FIXED in /repo (fix: integer promotion of the left operand of << and >>): the faithful model now translates it correctly *)
+Example C02_fixed_shift_promotion : forallb (fun s => match verdict_of (cfg_insn 0) w_D1 s with Some Agree => true | _ => false end) [32; 33; 34; 35; 46; 74] = true.
+Proof. vm_compute. reflexivity. Qed.
 
 (* D2: { RdV = !RsV; } — the effect writes an IL boolean into a 32-bit register: ill-sorted, stuck *)
 Definition w_D2 : cstmts := SCons (SExpr (EAssign AAssign (EOp (OReg "R" "d")) (EUn ULNot (EOp (OReg "R" "s"))))) SNil.
@@ -31,11 +32,12 @@ Definition w_D13 : cstmts :=
   SCons (SDecl [TS_intN true 8] "a" (Some (EOp (OReg "R" "s"))))
  (SCons (SDecl [TS_intN false 8] "b" (Some (EOp (OReg "R" "t"))))
  (SCons (SExpr (EAssign AAssign (EOp (OReg "R" "d")) (EBin BLt (EOp (OIdent "a")) (EOp (OIdent "b"))))) SNil)).
-Theorem C02_refuted_compare_promotion : mistranslated w_D13 32.
-Proof. left. vm_compute. reflexivity. Qed.
+(* FIXED in /repo (fix: integer promotion of comparison and ?: operands) *)
+Example C02_fixed_compare_promotion : forallb (fun s => match verdict_of (cfg_insn 0) w_D13 s with Some Agree => true | _ => false end) [32; 33; 34; 35; 46; 74] = true.
+Proof. vm_compute. reflexivity. Qed.
 
 Theorem C02_refuted : ~ C02_statement.
-Proof. apply (refute _ w_D1 32 I). exact C02_refuted_shift_promotion. Qed.
+Proof. apply (refute _ w_D2 32 I). exact C02_refuted_logical_not. Qed.
 Print Assumptions C02_refuted.
 
 (* the repaired model translates the three witnesses correctly on the same states *)
